@@ -107,8 +107,14 @@ func (self ValueString) Fields() (map[string]*Value, *VmInterrupt) {
 		}),
 		"parse_json": NewValueBuiltinFunction(func(executor Executor, cancelCtx *context.Context, span errors.Span, args ...Value) (*Value, *VmInterrupt) {
 			var raw interface{}
-			if err := json.Unmarshal([]byte(self.Inner), &raw); err != nil {
+			// numbers are kept as written so that `2.0` stays a float
+			decoder := json.NewDecoder(strings.NewReader(self.Inner))
+			decoder.UseNumber()
+			if err := decoder.Decode(&raw); err != nil {
 				return nil, NewVMThrowInterrupt(span, fmt.Sprintf("JSON parse error: %s", err.Error()))
+			}
+			if decoder.More() {
+				return nil, NewVMThrowInterrupt(span, "JSON parse error: unexpected data after top-level value")
 			}
 			value, i := UnmarshalValue(span, raw)
 			if i != nil {
